@@ -72,6 +72,30 @@ int main(int argc, char** argv) {
             std::printf("rejected %d of 6 bad files\n", rejected);
             return rejected == 6 ? 0 : 4;
         }
+        if (mode == "sweep") {
+            // one parameter tuple per stdin line (hex doubles allowed); the tuple is printed and flushed BEFORE it runs, so the last
+            // line of stdout names the failing input when a sanitizer report ends the process
+            char line[512]; int n = 0, rejected = 0, invalid = 0;
+            while (std::fgets(line, sizeof line, stdin)) {
+                char a0[64], a1[64], a4[64]; int nr_exp, nt_exp, an, dv;
+                if (std::sscanf(line, "%63s %63s %d %d %63s %d %d", a0, a1, &nr_exp, &nt_exp, a4, &an, &dv) != 7) continue;
+                double R0 = std::strtod(a0, nullptr), Rmax = std::strtod(a1, nullptr), rr = std::strtod(a4, nullptr);
+                std::printf("RUN %s %s %d %d %s %d %d\n", a0, a1, nr_exp, nt_exp, a4, an, dv); std::fflush(stdout);
+                n++;
+                try {
+                    PolarGrid g(R0, Rmax, nr_exp, nt_exp, rr, an, dv);
+                    if (validate(g, R0, Rmax, true)) { invalid++; std::printf("INVALID %s %s %d %d %s %d %d\n", a0, a1, nr_exp, nt_exp, a4, an, dv); }
+                    // exercise every accessor the solver uses on a fresh grid
+                    double acc = 0;
+                    for (int i = 0; i < g.nr(); i++) acc += g.radius(i);
+                    for (int i = 0; i + 1 < g.nr(); i++) acc += g.radialSpacing(i);
+                    for (int j = 0; j < g.ntheta(); j++) acc += g.theta(j) + g.angularSpacing(j);
+                    if (acc < 0) std::printf("impossible\n");
+                } catch (const std::exception& e) { rejected++; }
+            }
+            std::printf("SWEEP done n=%d rejected=%d invalid=%d\n", n, rejected, invalid);
+            return invalid ? 4 : 0;
+        }
     } catch (const std::exception& e) {
         std::printf("exception: %s\n", e.what());
         return 3;
